@@ -1,6 +1,7 @@
 """Independent convolution engine: I_j = int reg(z) p_j(c/z) dz/z + int sing(z)[p_j(c/z)/z - p_j(c)] dz + loc(c) p_j(c).
 
-Computed in the variable u = c/z, piecewise between consecutive grid nodes (break points correct by construction),
+Computed in the variable u = c/z (integration variable ln u), piecewise between consecutive grid nodes (break points
+correct by construction),
 with p_j from yv.basis (own Lagrange blocks) and scipy quad per piece. Nothing is taken from yadism.esf.conv or
 from eko's areas.
 """
@@ -74,8 +75,14 @@ def convolve(rsl, basis, c, epsrel=1e-10, zbreaks=(), derive_loc=False):
                         r += sing(z) * (p * u / c - pc[j]) * c / (u * u)
                     return r
 
+                # integrate in t = ln u: pieces of a linear-mode grid can span decades in u, where the measure du/u
+                # concentrates the integrand at the lower end (found by a C01 false alarm, DESIGN section 5)
+                def integrand_t(t, integrand=integrand):
+                    u = math.exp(t)
+                    return integrand(u) * u
+
                 for s_lo, s_hi in subs:
-                    v = quad(integrand, s_lo, s_hi, epsabs=0.0, epsrel=epsrel, limit=100)[0]
+                    v = quad(integrand_t, math.log(s_lo), math.log(s_hi), epsabs=0.0, epsrel=epsrel, limit=200)[0]
                     val[j] += v
                     sca[j] += abs(v)
     if rsl.loc is not None and derive_loc and sing is not None:
